@@ -257,7 +257,7 @@ def rule_c14_r3(model: Model) -> RuleResult:
 
 
 def rule_c14_r4(model: Model) -> RuleResult:
-    r = RuleResult('C14-R4', '__post_init__ runs on every exit of the generated constructor', floor=2)
+    r = RuleResult('C14-R4', '__post_init__ runs on every exit of the generated constructor', floor=1)
     f = model.func(INIT)
     cfg = cfg_of(model, f)
     nz = Normalizer(model, f, cfg, param_map=_pm(f))
